@@ -546,5 +546,54 @@ C('_vector_index_expand', 'pos', lambda g: ((4, 11), {}))
 C('_vector_index_prepare', 'neg', lambda g: ((4, -3), {}))
 
 
+# ---- systematic flag combinations (beyond the hand-written shapes above) -----------------
+import itertools as _it
+
+for _o, _s, _e in _it.product([True, False], [True, False], [True, False]):
+    C('truncate', f'flags-orth{int(_o)}-stab{int(_s)}-eigh{int(_e)}',
+        lambda g, o=_o, s_=_s, e_=_e: ((_decay(tt(g, [3, 4, 3], 3), 1e-2), 1e-3,
+        2), dict(orth=o, use_stab=s_, is_eigh=e_)))
+for _P, _i, _n, _l in _it.product([0, 1], [0, 1], [None, 'l', 'n'], [False, True]):
+    C('interface', f'flags-P{_P}-i{_i}-{_n}-ltr{int(_l)}',
+        lambda g, P=_P, i=_i, n=_n, l=_l: ((tt(g, [3, 4, 2]),), dict(
+        P=[g.uniform(size=3), g.uniform(size=4), g.uniform(size=2)] if P
+        else None, i=np.array([1, 3, 0]) if i else None, norm=n, ltr=l)))
+for _k, _s in _it.product([0, 1, 2, None], [False, True]):
+    C('orthogonalize', f'flags-k{_k}-stab{int(_s)}', lambda g, k=_k, s_=_s: ((
+        tt(g, [3, 4, 2]),), dict(k=k, use_stab=s_)))
+for _l, _a in _it.product([True, False], [True, False]):
+    C('optima_tt_beam', f'flags-l2r{int(_l)}-all{int(_a)}', lambda g, l=_l, a=_a:
+        ((tt(g, [3, 4, 2]),), dict(k=3, l2r=l, ret_all=a)))
+for _u in (True, False):
+    C('sample_square', f'flags-unique{int(_u)}-m1', lambda g, u=_u: ((
+        tt(g, [3, 4, 2]), 1, u), dict(seed=seed_kw(g))), seeded=True)
+for _c, _v, _dr in _it.product([False, True], [False, True], [(0, 0), (1, 2)]):
+    def _cr(g, c=_c, v=_v, dr=_dr):
+        (f, Y0), kw = _cross(g, nswp=2, dr_min=dr[0], dr_max=dr[1])
+        if c:
+            kw['cache'] = {}
+        if v:
+            I = idx(g, [3, 4, 3], 5)
+            kw.update(I_vld=I, y_vld=f(I))
+        return (f, Y0), kw
+    C('cross', f'flags-cache{int(_c)}-vld{int(_v)}-dr{_dr[0]}{_dr[1]}', _cr,
+        heavy=True)
+for _ord, _nz in _it.product([1, 2], [0., 1e-6]):
+    C('anova', f'flags-order{_ord}-noise{_nz}', lambda g, o=_ord, z=_nz:
+        _anova(g, o, r=3, noise=z), seeded=True, heavy=True)
+for _sk in (None, True, False):
+    C('func_get', f'flags-skip_out-{_sk}', lambda g, sk=_sk: ((g.uniform(-3, 3,
+        size=(6, 2)), tt(g, [4, 5]), [-1., 0.], [2., 2.]), dict(z=1.5,
+        skip_out=sk)))
+for _lt in (True, False):
+    C('core_dot_maxvol', f'flags-ltr{int(_lt)}', lambda g, lt=_lt: ((
+        g.normal(size=(2, 4, 2)), g.normal(size=(2, 2))), dict(ltr=lt)))
+for _h in (False, True):
+    for _rel in (False, True):
+        C('matrix_skeleton', f'flags-herm{int(_h)}-rel{int(_rel)}',
+            lambda g, h=_h, r_=_rel: (((lambda a: a + a.T)(g.normal(size=(5, 5))),
+            1e-2, 4), dict(hermitian=h, rel=r_)))
+
+
 def names():
     return sorted({c.name for c in CALLS})
